@@ -112,10 +112,10 @@ def run(prop, tier_, cfg, sample=None, jobs=12, bind_budget=False):
     # action-level conformance: a sample of the same cases, traced on the emulated backend, must be
     # behaviours of Lookup.tla (every real relevant syscall = the model's next action)
     from lib.project import lookup_conformance
-    rc_cases = [c for c in cases if c["op"]["op"] == "resolve" and not c["op"]["nosym"]]
+    rc_cases = list(cases)       # resolve / resolve_nofollow / open_subpath / readlink, with and without NO_SYMLINKS
     rnd.shuffle(rc_cases)
     tcases = [dict(id="conf|%d" % i, tree=[node_to_pv(n) for n in trees[c["tree"]]["nodes"]], feat={"openat2": False}, trace=True, raw=False,
-                   calls=[dict(op="resolve", path=join_path(c["path"]), nofollow=bool(c["op"]["nofollow"]))]) for i, c in enumerate(rc_cases[:300 if sample else 3000])]
+                   calls=[op_to_calls(c["op"], join_path(c["path"]))[0]]) for i, c in enumerate(rc_cases[:400 if sample else 4000])]
     tres = run_pv(tcases, jobs=jobs, tag=prop + "c")
     conf = lookup_conformance(tcases, tres)
     stats["conf_validated"], stats["conf_accepted"], stats["conf_drift"] = conf["validated"], conf["accepted"], len(conf["drift"])
